@@ -137,9 +137,14 @@ func RunOne(t *testing.T, prog *Program, tape *Tape, keepTrace bool) (res *Resul
 				s.rpcs = append(s.rpcs, rs)
 			}
 			for _, rs := range s.rpcs {
-				if !rs.r.Nested {
-					s.spawnClient(rs, 0, rs.r.Client)
+				if rs.r.Nested {
+					continue
 				}
+				if a := rs.r.After; a > 0 && a <= len(s.rpcs) && a-1 != rs.r.ID && !s.rpcs[a-1].r.Nested {
+					s.waiting = append(s.waiting, rs) // a later call on the same channel
+					continue
+				}
+				s.spawnClient(rs, 0, rs.r.Client)
 			}
 			maxSteps := prog.Cfg.MaxSteps
 			if maxSteps == 0 {
